@@ -179,6 +179,18 @@ impl Invlpgb {
         })
     }
 
+    /// Verification hook H1: construct an `Invlpgb` with explicit processor limits
+    /// (the fields are private and `new()` asserts CPL 0).
+    #[cfg(feature = "verif_hooks")]
+    #[doc(hidden)]
+    pub fn verif_new(invlpgb_count_max: u16, tlb_flush_nested: bool, nasid: u32) -> Self {
+        Self {
+            invlpgb_count_max,
+            tlb_flush_nested,
+            nasid,
+        }
+    }
+
     /// Returns the maximum count of pages to be flushed supported by the processor.
     #[inline]
     pub fn invlpgb_count_max(&self) -> u16 {
